@@ -34,7 +34,7 @@ ASSUMPTIONS = [
 ]
 TECHNIQUE = "relational (two-run) runtime monitor: response vs transposed response over paired public properties"
 DESIGN_REF = "DESIGN.md 4 C10"
-WEIGHTS = ["none", "frac", "zeros"]
+WEIGHTS = ["none", "frac", "zeros", "float"]
 MSETS = [(), ("sum",), (), ("mean", "stddev"), ("sum", "mean"), ()]
 REQUIRED_REACH = ["paired", "direction_free", "orders", "masks", "class:ins", "class:diff",
                   "class:transformed", "class:sum_measure", "class:pair=CATxMR",
@@ -90,6 +90,8 @@ def make_case(unit):
     tr = {}
     if g.chance(0.65):
         cases.attach_insertions(g, facets, tr)
+    if wmode == "float" and g.chance(0.5):
+        cases.add_total_subtotals(facets, tr)
     spec = sim.CubeSpec(facets, g.weights(N, wmode), mset, g.num(N) if mset else None)
     if g.chance(0.5):
         _both_way_transforms(g, spec, tr)
@@ -173,6 +175,29 @@ def check_case(case):
     return res
 
 
+def _only_zero_variance_cells(L, part, va, vb):
+    """True when the weights are not exactly representable and va / vb differ only in cells
+    whose row or column base takes up the whole table base (up to rounding): the residual
+    there is 0/0 and what is reported is decided by the last bits of three sums."""
+    w = L.spec.weight
+    if w is None or not np.any((np.asarray(w, dtype=float) * 8) % 1 != 0):
+        return False
+    try:
+        A, B = np.asarray(va, dtype=float), np.asarray(vb, dtype=float)
+        tb = np.asarray(read(part, "table_weighted_bases").value, dtype=float)
+        rb = np.asarray(read(part, "row_weighted_bases").value, dtype=float)
+        cb = np.asarray(read(part, "column_weighted_bases").value, dtype=float)
+    except Exception:
+        return False
+    if A.shape != B.shape or A.shape != tb.shape or A.ndim != 2:
+        return False
+    with np.errstate(invalid="ignore"):
+        differ = ~((A == B) | (np.isnan(A) & np.isnan(B)) | np.isclose(A, B, rtol=1e-9,
+                                                                        atol=1e-12))
+        zero_var = (np.abs(tb - rb) <= 1e-9 * np.abs(tb)) | (np.abs(tb - cb) <= 1e-9 * np.abs(tb))
+    return bool(differ.any()) and bool(np.all(zero_var[differ]))
+
+
 def _tvalue(v):
     a = np.asarray(v) if not isinstance(v, np.ndarray) else v
     if a.ndim == 2:
@@ -188,6 +213,10 @@ def _pair(res, L, t, a, b, both_dates):
         res.classes.append("diff")
     names = partcmp.public_names(a)
     nameset = set(names)
+    w = L.spec.weight
+    loose = w is not None and bool(np.any((np.asarray(w, dtype=float) * 8) % 1 != 0))
+    if loose:
+        res.classes.append("weights_not_representable")
     for n in names:
         if n in ONE_DIRECTIONAL:
             continue
@@ -209,8 +238,18 @@ def _pair(res, L, t, a, b, both_dates):
             res.check(mon, va is None and vb is None, "none/%s" % n,
                       {"A": snap(va), "B": snap(vb)})
             continue
-        ok, det = partcmp.values_same(va, _tvalue(vb), rtol=1e-9, atol=1e-12)
+        rtol, atol = 1e-9, 1e-12
+        if loose:
+            # square roots of rounding residues (1e-16 -> 1e-8), scaled by the population
+            rtol, atol = 1e-7, (4e-4 if n.startswith("population") else 2e-7)
+        ok, det = partcmp.values_same(va, _tvalue(vb), rtol=rtol, atol=atol)
         blk = ""
+        if not ok and n in ("zscores", "pvals", "pvalues") and _only_zero_variance_cells(
+                L, a, va, _tvalue(vb)):
+            # 0/0 cells decided by rounding (known finding, DESIGN.md 5.2)
+            res.classes.append("zero_variance_cell_rounding")
+            res.check(mon, False, "%s/%s/zero_variance_cell_rounding" % (mon, n), det)
+            continue
         if not ok and isinstance(det, dict) and "at" in det and len(det["at"]) == 2:
             i, j = det["at"]
             if i < len(V.rows) and j < len(V.cols):
@@ -235,8 +274,14 @@ def _pair(res, L, t, a, b, both_dates):
             res.check("masks", ok, "masks/%s" % x, det)
     ra, rb = read(a, "residual_test_stats"), read(b, "residual_test_stats")
     if ra.ok and rb.ok:
-        ok, det = partcmp.values_same(ra.value, np.transpose(np.asarray(rb.value), (0, 2, 1)))
-        res.check("direction_free", ok, "direction_free/residual_test_stats", det)
+        rbt = np.transpose(np.asarray(rb.value), (0, 2, 1))
+        ok, det = partcmp.values_same(ra.value, rbt)
+        if not ok and all(_only_zero_variance_cells(L, a, np.asarray(ra.value)[k], rbt[k])
+                          for k in range(2)):
+            res.check("direction_free", False,
+                      "direction_free/residual_test_stats/zero_variance_cell_rounding", det)
+        else:
+            res.check("direction_free", ok, "direction_free/residual_test_stats", det)
     c = read(a, "counts")
     if c.ok:
         m = np.asarray(c.value, dtype=float)
